@@ -5,6 +5,7 @@ import registry
 ROOT = os.path.dirname(os.path.dirname(os.path.abspath(__file__)))
 BBR_CLASS = "bbr_min_window_u16_overflow"
 BBR_CLASS2 = "bbr_send_quantum_u16_overflow"
+ENC_CLASS = "dc_stream_payload_len_varint_reserve"
 
 
 def _mtu_max():
@@ -16,7 +17,9 @@ def _mtu_max():
     except OSError:
         txt = ""
     # second site: Pacer::set_send_quantum computes `max_datagram_size * 2` in u16 (overflows at exactly 32768)
-    if BBR_CLASS not in txt:
+    # third site: packet/stream/encoder.rs reserves 1 byte for the payload-length varint; payloads >= 16384
+    # (datagram sizes above ~16.5 kB) overflow the packet buffer by 2 bytes
+    if BBR_CLASS not in txt or ENC_CLASS not in txt:
         return 16383
     return 32768 if BBR_CLASS2 in txt else 32767
 
@@ -95,7 +98,12 @@ def fixed_dcsim(tier):
 
 
 def valid_dcsim(c):
-    return len(c) >= 2 and all(isinstance(v, int) and 0 <= v < (1 << 40) for v in c)
+    """positional format: the shrinker may only change magnitudes; operation counts stay bounded"""
+    if len(c) != 20 or not all(isinstance(v, int) and 0 <= v < (1 << 40) for v in c):
+        return False
+    req, resp = min(c[4], 1 << 24), min(c[5], 1 << 24)
+    cread, sread, cchunk, schunk = (max(1, v) for v in c[11:15])
+    return req // cchunk <= 5000 and resp // schunk <= 5000 and resp // cread <= 20000 and req // sread <= 20000
 
 
 def nontrivial_dcsim(case, out):
@@ -134,6 +142,8 @@ def histogram_dcsim(cases, outs):
 
 
 def classify(p):
+    if "exceeded capacity of" in (p.get("impl") or "") and max((list(p["case"]) + [0] * 4)[2:4]) >= 16384:
+        return ENC_CLASS
     if "attempt to multiply with overflow" in (p.get("impl") or ""):
         m = max((list(p["case"]) + [0] * 4)[2:4])
         if m >= 32768:
